@@ -569,10 +569,25 @@ def check_yaml_root(ctx, an, model):
                 ctx.ob("yaml.wrap-only-with-root-key", yd, "yaml.dump(...) %s" % what, ok,
                        "without a root key the tree itself is the document" if ok else
                        "the tree is wrapped (or replaced) although no root key is configured", node=n)
-        dec, is_rk = _rootkey_decider(yl, configured)
-        sp = Spec(an, yl, dec)
+        dec0, is_rk = _rootkey_decider(yl, configured)
         g = an.cfg(yl)
         loads = [n for n in g.nodes if n.kind == "call" and ast.unparse(n.ast.func).endswith("load")]
+
+        def dec(e, node, sp, dec0=dec0):
+            # the document is what dumps wrote: a mapping, not an empty / non-mapping document (those are handled apart)
+            def is_document(x):
+                if not isinstance(x, ast.Name) or sp.rd is None:
+                    return False
+                ss = sp.sources(x, node)
+                return bool(ss) and all(k == "expr" and isinstance(p_, ast.Call) and any(p_ is l.ast for l in loads) for k, p_ in ss)
+            if isinstance(e, ast.Compare) and len(e.ops) == 1 and isinstance(e.comparators[0], ast.Constant) and e.comparators[0].value is None \
+                    and is_document(e.left):
+                return isinstance(e.ops[0], (ast.IsNot, ast.NotEq))
+            if isinstance(e, ast.Call) and isinstance(e.func, ast.Name) and e.func.id == "isinstance" and len(e.args) == 2 and is_document(e.args[0]) \
+                    and ast.unparse(e.args[1]) in ("dict", "Mapping", "(dict, OrderedDict)", "collections.abc.Mapping"):
+                return True
+            return dec0(e, node)
+        sp = Spec(an, yl, dec)
         for r in sp.normal_returns():
             if r.ast.value is None:
                 ctx.ob("yaml.returns-unwrapped", yl, r.ast, False, "loads returns nothing %s" % what, node=r)
